@@ -123,7 +123,15 @@ type limitRun struct {
 }
 
 // runLimited decodes the whole history under one limit (0 = the default limit).
+// limitCaseHook describes the decode about to run, for the non-termination watchdog.
+var limitCaseHook func(limit uint64) (Finding, *WorkerOut)
+
 func runLimited(h []Letter, bars []*colarspb.BatchArrowRecords, limit uint64, useDefault bool) *limitRun {
+	if limitCaseHook != nil {
+		f, out := limitCaseHook(limit)
+		wdBegin(f, out)
+		defer wdEnd()
+	}
 	rec := &memRecorder{}
 	opts := []arrow_record.Option{arrow_record.WithMeterProvider(recMP{rec: rec})}
 	if !useDefault {
@@ -338,6 +346,11 @@ func declaredSize(h []Letter, zstd int) []string {
 		return nil
 	}
 	const limit = 1 << 20
+	if limitCaseHook != nil {
+		f, out := limitCaseHook(limit)
+		wdBegin(f, out)
+		defer wdEnd()
+	}
 	c := arrow_record.NewConsumer(arrow_record.WithMemoryLimit(limit))
 	defer func() { protect(func() { c.Close() }) }()
 	for i := 0; i+1 < len(h); i++ {
@@ -398,6 +411,12 @@ func limitWorker(tier string, shard, nshard int) *WorkerOut {
 				}
 				out.Units++
 				out.States++
+				hh, zz := h, z
+				limitCaseHook = func(limit uint64) (Finding, *WorkerOut) {
+					ex, _ := json.Marshal(LimitCase{Zstd: zz, Limit: limit})
+					return Finding{Prop: "C14", Unit: Unit{Opts: DefaultOptions(), History: hh, Tag: "limit"}, Extra: ex,
+						Key: fmt.Sprintf("zstd=%d limit=%d :: %s", zz, limit, unitKey(Unit{Opts: DefaultOptions(), History: hh}, len(hh)-1))}, out
+				}
 				viol, lstar, exh := limitLadder(h, z, out.Counters, 4<<20)
 				if len(h) <= 2 {
 					out.Counters["declared_size_cases"]++
@@ -455,7 +474,13 @@ func init() {
 			return 0
 		}
 		counters := map[string]int{}
+		limitCaseHook = func(limit uint64) (Finding, *WorkerOut) { return Finding{Prop: "C14", Unit: a.Unit, Extra: a.Extra}, nil }
 		viol, _, _ := limitLadder(a.Unit.History, lc.Zstd, counters, lc.Limit+64)
+		if len(a.Unit.History) <= 2 {
+			if dv := declaredSize(a.Unit.History, lc.Zstd); len(dv) > 0 {
+				viol[1<<20] = append(viol[1<<20], dv...)
+			}
+		}
 		bad := false
 		for L, ms := range viol {
 			for _, m := range ms {
